@@ -1,5 +1,6 @@
 import Tftp.Lemmas.SenderStep
 import Tftp.Lemmas.Receiver
+import Tftp.Props.C02
 import Tftp.Model.Net
 /-! The fault-free closed loop: sender model against receiver model completes with an identical copy. -/
 namespace Tftp
@@ -540,5 +541,153 @@ have ended successfully and the receiver's file is byte-identical to the sender'
 theorem fault_free_transfer (sc : SCfg) (rc : RCfg) (lc : LoopCfg sc rc) (f : Bytes) :
     ∃ fuel, DoneSt f (netRun sc rc Faults.none fuel (netInit sc rc Faults.none f)) :=
   loop_progress sc rc lc f _ _ (Or.inl ⟨0, init_mid sc rc lc f⟩) (Nat.le_refl _)
+
+end Tftp
+
+namespace Tftp
+
+/-! ### safety of the closed loop under every fault schedule -/
+
+/-- a DATA datagram in flight is a block of the file -/
+def GoodDatum (b : Nat) (f : Bytes) (x : Nat × Bytes) : Prop :=
+  ∃ k, 1 ≤ k ∧ k ≤ nblocks b f ∧ x.1 = k % 65536 ∧ x.2 = blk b f k
+
+theorem mem_applyFaults {α : Type} (drop dup : List Nat) (n : Nat) (xs : List α) (x : α)
+    (h : x ∈ applyFaults drop dup n xs) : x ∈ xs := by
+  induction xs generalizing n with
+  | nil => simp [applyFaults] at h
+  | cons y ys ih =>
+    simp only [applyFaults, List.mem_append] at h
+    rcases h with h | h
+    · split at h
+      · simp at h
+      · split at h <;> simp at h <;> simp [h]
+    · exact List.mem_cons_of_mem _ (ih _ h)
+
+theorem mem_dataOf (ps : List Packet) (x : Nat × Bytes) (h : x ∈ dataOf ps) : Packet.data x.1 x.2 ∈ ps := by
+  induction ps with
+  | nil => simp [dataOf] at h
+  | cons p ps ih =>
+    cases p with
+    | data n d =>
+      simp only [dataOf, List.mem_cons] at h
+      rcases h with h | h
+      · subst h; simp
+      · exact List.mem_cons_of_mem _ (ih h)
+    | rrq _ _ _ => exact List.mem_cons_of_mem _ (ih (by simpa [dataOf] using h))
+    | wrq _ _ _ => exact List.mem_cons_of_mem _ (ih (by simpa [dataOf] using h))
+    | ack _ => exact List.mem_cons_of_mem _ (ih (by simpa [dataOf] using h))
+    | error _ _ => exact List.mem_cons_of_mem _ (ih (by simpa [dataOf] using h))
+    | oack _ => exact List.mem_cons_of_mem _ (ih (by simpa [dataOf] using h))
+
+/-- the invariant of the closed loop that holds whatever the fault schedule does -/
+structure SafeSt (sc : SCfg) (rc : RCfg) (f : Bytes) (st : NetState) : Prop where
+  sinv : SInv sc f st.s
+  dq_good : ∀ x ∈ st.dq, GoodDatum sc.b f x
+  rreach : RReachFrom rc f st.r
+
+theorem emitData_safe (sc : SCfg) (rc : RCfg) (fl : Faults) (f : Bytes) (st : NetState) (out : List Packet)
+    (hdq : ∀ x ∈ st.dq, GoodDatum sc.b f x) (hout : ∀ p ∈ out, GoodPkt sc f p) :
+    ∀ x ∈ (emitData fl st out).dq, GoodDatum sc.b f x := by
+  intro x hx
+  simp only [emitData, List.mem_append] at hx
+  rcases hx with hx | hx
+  · exact hdq x hx
+  · have hm := mem_dataOf out x (mem_applyFaults _ _ _ _ x hx)
+    rcases hout _ hm with ⟨k, h1, h2, h3⟩ | h3
+    · injection h3 with h4 h5
+      exact ⟨k, h1, h2, h4, h5⟩
+    · simp [illegalOp] at h3
+
+theorem netStep_safe (sc : SCfg) (rc : RCfg) (hb : 0 < sc.b) (hw : sc.w < 65536) (hrb : rc.b = sc.b) (fl : Faults)
+    (f : Bytes) (st st' : NetState) (h : SafeSt sc rc f st) (hs : netStep sc rc fl st = some st') :
+    SafeSt sc rc f st' := by
+  obtain ⟨s, r, dq, aq, nd, na, tmo⟩ := st
+  obtain ⟨sinv, dq_good, rreach⟩ := h
+  simp only at sinv dq_good rreach
+  have hstep_s : ∀ ev dt, SInv sc f (sStep sc s ev dt).1 ∧ ∀ p ∈ (sStep sc s ev dt).2, GoodPkt sc f p := by
+    intro ev dt
+    obtain ⟨h1, _, h3⟩ := step_good hb hw sinv ev dt
+    refine ⟨h1, ?_⟩
+    intro p hp
+    rcases h3 p hp with hg | hil
+    · exact hg.toPkt
+    · exact Or.inr hil
+  cases dq with
+  | cons x rest =>
+    obtain ⟨n, d⟩ := x
+    simp only [netStep] at hs
+    have hx : GoodDatum sc.b f (n, d) := dq_good (n, d) (by simp)
+    have hrest : ∀ y ∈ rest, GoodDatum sc.b f y := fun y hy => dq_good y (by simp [hy])
+    split at hs
+    · simp at hs
+      rw [← hs]
+      refine ⟨sinv, by simpa [emitAcks] using hrest, ?_⟩
+      show RReachFrom rc f (rStep rc r (.data n d)).1
+      apply RReachFrom.step r (.data n d) rreach
+      intro n' p' hev
+      injection hev with h1 h2
+      obtain ⟨k, hk1, hk2, hk3, hk4⟩ := hx
+      exact ⟨k, hk1, by rw [hrb]; exact hk2, by rw [← h1]; exact hk3, by rw [← h2, hrb]; exact hk4⟩
+    · simp at hs
+      rw [← hs]
+      exact ⟨sinv, hrest, rreach⟩
+  | nil =>
+    cases aq with
+    | cons a rest =>
+      simp only [netStep] at hs
+      split at hs
+      · simp at hs
+        rw [← hs]
+        obtain ⟨h1, h2⟩ := hstep_s (.ack a) 0
+        exact ⟨h1, emitData_safe sc rc fl f _ _ (by simp) h2, rreach⟩
+      · simp at hs
+        rw [← hs]
+        exact ⟨sinv, by simp, rreach⟩
+    | nil =>
+      simp only [netStep] at hs
+      split at hs
+      · simp at hs
+      · -- quiescence: every running side times out
+        have hfail : RReachFrom rc f (rStep rc r .fail).1 :=
+          RReachFrom.step r .fail rreach (by intro n p h; cases h)
+        obtain ⟨h1, h2⟩ := hstep_s .fail sc.timeout
+        by_cases hrr : receiverRunning r = true <;> by_cases hsr : senderRunning s = true <;>
+          simp only [hrr, hsr, ↓reduceIte, Option.some.injEq, Bool.false_eq_true] at hs <;> rw [← hs]
+        · exact ⟨h1, emitData_safe sc rc fl f _ _ (by simp) h2, hfail⟩
+        · exact ⟨sinv, by simp, hfail⟩
+        · exact ⟨h1, emitData_safe sc rc fl f _ _ (by simp) h2, rreach⟩
+        · exact ⟨sinv, by simp, rreach⟩
+
+/-- **no corrupted copy, whatever the network does** (transfers of at most 65535 blocks): for every fault
+schedule — any datagrams lost or duplicated in either direction — and at every moment of the closed
+loop, what the receiver has accepted is blocks `1..j` of the sender's file in order, and if the receiver
+ends successfully its file is byte-identical to the sender's -/
+theorem closed_loop_safety (sc : SCfg) (rc : RCfg) (hb : 0 < sc.b) (hw1 : 1 ≤ sc.w) (hw : sc.w < 65536)
+    (hrb : rc.b = sc.b) (hrw : rc.w = sc.w) (fl : Faults) (f : Bytes) (hN : nblocks sc.b f ≤ 65535) (fuel : Nat) :
+    (netRun sc rc fl fuel (netInit sc rc fl f)).r.received =
+        blocksUpTo sc.b f (netRun sc rc fl fuel (netInit sc rc fl f)).r.received.length ∧
+    ((netRun sc rc fl fuel (netInit sc rc fl f)).r.status = .ok →
+        (netRun sc rc fl fuel (netInit sc rc fl f)).r.win.file.content = f) := by
+  have hinit : SafeSt sc rc f (netInit sc rc fl f) := by
+    obtain ⟨h0, h1⟩ := init_good hb hw f false
+    unfold netInit
+    refine ⟨by simpa [emitData] using h0, ?_, by simpa [emitData] using RReachFrom.init⟩
+    exact emitData_safe sc rc fl f _ _ (by simp) h1
+  have hrun : ∀ (fuel : Nat) (st : NetState), SafeSt sc rc f st → SafeSt sc rc f (netRun sc rc fl fuel st) := by
+    intro fuel
+    induction fuel with
+    | zero => intro st h; exact h
+    | succ n ih =>
+      intro st h
+      simp only [netRun]
+      cases hs : netStep sc rc fl st with
+      | none => exact h
+      | some st' => exact ih st' (netStep_safe sc rc hb hw hrb fl f st st' h hs)
+  have hfin := hrun fuel _ hinit
+  have hc := c02_conformant_sender rc (by rw [hrb]; exact hb) (by rw [hrw]; exact hw1) (by rw [hrw]; exact hw) f
+    (by rw [hrb]; exact hN) _ hfin.rreach
+  rw [hrb] at hc
+  exact ⟨by unfold blocksUpTo; exact hc.1, hc.2.2⟩
 
 end Tftp
